@@ -300,7 +300,9 @@ fn install_sink(sh: Sh) {
             Event::Enter { role, id, what, pdu, arg } => {
                 let s = sh2.lock().unwrap();
                 let p = pdu.as_ref().map(|p| pdu_proj(&s, p));
-                json!({"k": "enter", "role": role_s(role), "tx": [idv(&id.0), idv(&id.1)], "what": what, "pdu": p, "arg": arg})
+                // the ids in the header of the PDU handed to this transaction (C11: they must be the transaction's own)
+                let hid = pdu.as_ref().map(|p| vec![idv(&p.header.source_entity_id), idv(&p.header.transaction_sequence_number)]);
+                json!({"k": "enter", "role": role_s(role), "tx": [idv(&id.0), idv(&id.1)], "what": what, "pdu": p, "arg": arg, "hid": hid})
             }
             Event::PduOut { role, id, pdu } => {
                 let s = sh2.lock().unwrap();
